@@ -22,12 +22,17 @@ RULE = ("all schema trees in the bound x {default state, all-assigned state} x e
 ASSUMPTIONS = ["argparse is the command-line parser", "keys are identifiers that do not collide after the '.'/'_' to '-' mapping"]
 
 KEYS = ["a", "b_c", "port"]
-CMD_VALUE = {"Int": ("7", 7), "Str": ("hello", "hello"), "Float": ("2.5", 2.5), "Include": ("inc.cfg", "inc.cfg")}
-ASSIGN = {"Int": 3, "Str": "s", "Float": 1.25, "Bool": None, "List": [2], "Include": "inc2.cfg"}
+CMD_VALUE = {"Int": ("7", 7), "Str": ("hello", "hello"), "Float": ("2.5", 2.5), "Include": ("inc.cfg", "inc.cfg"),
+             # an empty value is a value; string fields with choices normalise what the user typed before judging it
+             "StrEmpty": ("", ""), "Level": ("DEBUG", "debug"), "Mode": (" Production ", "production"), "Choice": (" B ", "b")}
+ASSIGN = {"Int": 3, "Str": "s", "Float": 1.25, "Bool": None, "List": [2], "Include": "inc2.cfg", "StrEmpty": "s", "Level": "error", "Mode": "development",
+          "Choice": "a"}
 # schemas holding an include field (a persistent string-valued scalar like any other file name field)
 INCLUDE_SPECS = [[["a", "Include"]], [["a", "Int"], ["b_c", "Include"]], [["a", [["a", "Include"]]]],
                  [["a", [["a", "Int"], ["b_c", "Include"]]], ["b_c", "Bool"]], [["a", [["a", [["a", "Include"]]], ["b_c", "Bool"]]]]]
 ENV_OPTS = [False, True, "C16PFX", None]
+VALUE_SPECS = [[["a", "StrEmpty"]], [["a", "Level"], ["b_c", "Mode"]], [["a", [["a", "Choice"], ["b_c", "StrEmpty"]]], ["b_c", "Level"]],
+               [["a", [["a", [["a", "Mode"]]], ["b_c", "Int"]]], ["port", "Choice"]]]
 
 
 def schema_specs(tier):
@@ -103,6 +108,14 @@ def _fill(s, spec, ctr, explicit=None):
             _fill(getattr(s, key), kind, ctr)
         elif kind == "Include":
             setattr(s, key, cc.IncludeField())
+        elif kind == "StrEmpty":
+            setattr(s, key, cc.StringField(default="d"))
+        elif kind == "Level":
+            setattr(s, key, cc.LogLevelField(default="info"))
+        elif kind == "Mode":
+            setattr(s, key, cc.ApplicationModeField(default="development", create_helpers=False))
+        elif kind == "Choice":
+            setattr(s, key, cc.StringField(choices=["a", "b"], transform_case="lower", transform_strip=True, default="a"))
         elif kind == "Int":
             setattr(s, key, cc.IntField(default=1))
         elif kind == "Str":
@@ -146,7 +159,7 @@ def bounds(tier):
 def jobs(tier):
     specs = schema_specs(tier)
     n = 64 if tier == "thorough" else 16
-    return [{"name": "schemas/%02d" % c, "specs": specs[c::n]} for c in range(n) if specs[c::n]] + [{"name": "schemas/include", "specs": INCLUDE_SPECS}]
+    return [{"name": "schemas/%02d" % c, "specs": specs[c::n]} for c in range(n) if specs[c::n]] + [{"name": "schemas/include", "specs": INCLUDE_SPECS}, {"name": "schemas/values", "specs": VALUE_SPECS}]
 
 
 def run_job(job, ctx):
